@@ -38,7 +38,7 @@ def analyse(prop, root, tier="quick", overlay=None, only_rule=None, ctx=None):
                 continue
             out = RuleOut(rule_id, title)
             fn(ctx, out)
-            if out.instances < floor:
+            if out.instances < floor and not out.findings:
                 raise AnalysisError(f"rule {rule_id}: analysed {out.instances} instances, floor is {floor} "
                                     f"(a rule that matches nothing passes vacuously)")
             res.outs.append(out)
